@@ -105,6 +105,15 @@ func zzH_Eval() {
 		return
 	}
 	doc := zzInputDoc("doc")
+	if zzParam("preboom") == "1" {
+		// an earlier evaluation that a panicking user function aborted half-way
+		// (one value collected, then the panic), recovered by the caller
+		bc := Config{}
+		zzAddFuncs(&bc)
+		_, _, bp := zzTryRetrieve(`$[*].boomnum()`, []interface{}{"kept", "kept2", 1.0}, []Config{bc})
+		_, own := bp.(zzBoom)
+		zzAssert(own, "user-panic-reaches-the-caller")
+	}
 	zzCallLog = nil
 	got, err, pan := zzTry(f, doc)
 	implCalls := zzCallLog
